@@ -4,6 +4,10 @@ import Sio.Props.C12
 #print axioms Sio.C12.hostile_run_confined
 #print axioms Sio.C12.bystander_unchanged
 #print axioms Sio.C12.still_serving
+#print axioms Sio.C12.output_consistent
+#print axioms Sio.C12.hostile_invisible
+#print axioms Sio.C12.noninterference
+#print axioms Sio.C12.runSkip_no_skips
 #print axioms Sio.C12.undecodable_inert
 #print axioms Sio.C12.stray_binary_inert
 #print axioms Sio.C12.bounded_reserve
